@@ -1,6 +1,6 @@
-import EupsModel.Drv.Util
+import EupsModel.Drv.C01
 namespace EupsModel.Drv.C02
 open Lean EupsModel EupsModel.Drv
-/-- placeholder until the C02 model exists -/
-def handle : Handler := fun _ => throw "model C02 not built"
+/-- C02 shares the setup model with C01: same ops ("setup", "unsetup"), same request format. -/
+def handle : Handler := C01.handle
 end EupsModel.Drv.C02
